@@ -289,6 +289,28 @@ class World(object):
                 return rnd
         return None
 
+    def settle(self, max_rounds=400, spin_rounds=3, on_deliver=None):
+        ''' Scripted mode: deliver everything both ways and run the real endpoint until
+        nothing observable changes any more (a self re-arming idle source is not progress). '''
+        end = self.real
+        quiet = 0
+        for _ in range(max_rounds):
+            before = self.observable()
+            moved = self.tx_pipe.deliver()
+            if moved and on_deliver is not None:
+                on_deliver()
+            if end.sock.closed:
+                break
+            ran = end.ctx.iterate()
+            self.rx_pipe.deliver()
+            if moved or self.observable() != before:
+                quiet = 0
+                continue
+            quiet += 1
+            if not ran or quiet >= spin_rounds:
+                break
+        self.rx_pipe.deliver()
+
     # -- scripted peer helpers ------------------------------------------------------
     def peer_send(self, data):
         ''' The scripted peer writes octets; they are in flight until delivered. '''
